@@ -88,12 +88,17 @@ def dense_rank(values) -> list[int]:
     return [pos[float(v)] for v in values]
 
 
-def history(space, n: int, rng: random.Random, extreme: bool = False):
+def history(space, n: int, rng: random.Random, extreme: bool = False, pair: bool = False):
     pts = np.array([[float(g[rng.randrange(len(g))]) for g in space.param_grid] for _ in range(n)], dtype=float).reshape(n, space.dims)
     vals = [rng.choice([0.5, 1.0, 1.0, 2.5, 0.25, 3.75]) * rng.choice([1, 1, 2]) for _ in range(n)]      # ties
     if extreme and n:
         for _ in range(max(1, n // 3)):
             vals[rng.randrange(n)] = rng.choice([1e39, 1e308, -1e39, 3.5e38, 1e-300, float("inf")])
+        if pair and n >= 2 and rng.random() < 0.35:
+            # an infinite loss next to the largest finite double of the same sign: they are different ranks
+            i, j = sorted(rng.sample(range(n), 2))
+            big = float(np.finfo(float).max)
+            vals[i], vals[j] = rng.choice([(-big, float("-inf")), (float("inf"), big), (float("-inf"), -big), (big, float("inf"))])
     return pts, np.array(vals, dtype=float)
 
 
@@ -112,7 +117,8 @@ def run_calls(name: str, bounds, prec, rem, bs: int, seed: int, ncalls: int, rng
         # (the pool -> predictions -> selection of ONE sample_batch call is observed: no deduplication redraws then)
         s, kw = make(name, bs, seed, rng, single_pass=watch and name in ("RandomForestSampler", "XGBoostSampler", "GaussianProcessSampler"))
         n0 = max(bs, 3) + rng.randint(0, 4)
-        pts, losses = history(space, n0, rng, extreme and name not in ("GaussianProcessSampler", "RandomForestSampler", "CORSSampler"))
+        pts, losses = history(space, n0, rng, extreme and name not in ("GaussianProcessSampler", "RandomForestSampler", "CORSSampler"),
+                              pair=name == "BestBatchSampler")
         if extreme and name in ("GaussianProcessSampler", "RandomForestSampler", "CORSSampler"):
             losses[rng.randrange(len(losses))] = rng.choice([1e39, 1e300, -1e39])       # finite extremes only
         spy = {}
@@ -166,7 +172,7 @@ def run_calls(name: str, bounds, prec, rem, bs: int, seed: int, ncalls: int, rng
             # the calibrator appends the batch and its losses - or (a sampler object reused on another history, losses recomputed)
             # the next call sees a different history of the very same shape
             if c % 2 == 1 and name not in ("ParticleSwarmSampler",):
-                pts, losses = history(space, len(pts), rng, False)
+                pts, losses = history(space, len(pts), rng, extreme and name == "BestBatchSampler", pair=True)
             elif out.ndim == 2 and out.shape[1] == pts.shape[1]:
                 pts = np.vstack([pts, out])
                 losses = np.concatenate([losses, [rng.choice([0.5, 1.0, 2.0, 0.125]) for _ in range(len(out))]])
